@@ -67,6 +67,7 @@ class FnSpec:
     requires: List[Clause] = field(default_factory=list)
     ensures: List[Clause] = field(default_factory=list)
     entry: List[str] = field(default_factory=list)
+    tail: List[str] = field(default_factory=list)      # injected before the tail expression of the body
     loops: Dict[int, Dict[str, List[str]]] = field(default_factory=dict)
     after_let: List[Tuple[str, int, str]] = field(default_factory=list)
     before_let: List[Tuple[str, int, str]] = field(default_factory=list)
@@ -85,6 +86,27 @@ class FnSpec:
 
 
 @dataclass
+class WrapSpec:
+    """a function synthesised around fragments cut out of the middle of a /repo function"""
+    name: str
+    source: str
+    from_header: Optional[str] = None
+    from_fn: str = ""
+    frags: Dict[str, str] = field(default_factory=dict)     # name -> anchor text
+    sig: str = ""
+    ret: str = "r"
+    requires: List[Clause] = field(default_factory=list)
+    ensures: List[Clause] = field(default_factory=list)
+    body: str = ""
+    attrs: List[str] = field(default_factory=list)
+    no_canary: bool = False
+
+    @property
+    def qual(self) -> str:
+        return f"wrap {self.name} (from {self.from_fn} in {self.source})"
+
+
+@dataclass
 class UnitSpec:
     name: str = ""
     path: str = ""
@@ -92,6 +114,7 @@ class UnitSpec:
     libs: List[str] = field(default_factory=list)
     order: List[Tuple[str, object]] = field(default_factory=list)   # (kind, payload) in file order
     fns: List[FnSpec] = field(default_factory=list)
+    mode: str = "verus"      # verus | rust (plain Rust output for Kani harness crates)
 
 
 _label_re = re.compile(r"^\[([A-Za-z0-9_.\-]+)\]\s*(.*)$", re.S)
@@ -155,11 +178,47 @@ def parse(path: str) -> UnitSpec:
                 u.order.append(("fn", cur))
             elif head == "raw":
                 u.order.append(("raw", txt[len("raw"):].lstrip("\n ")))
+            elif head == "mode":
+                u.mode = rest
+            elif head == "wrap":
+                cur = WrapSpec(rest.strip(), src)
+                u.order.append(("wrap", cur))
             else:
                 raise SpecError(f"{path}:{ln}: unknown directive {head}")
             continue
         if cur is None:
             raise SpecError(f"{path}:{ln}: entry outside fn block")
+        if isinstance(cur, WrapSpec):
+            if head == "from":
+                r2 = rest[3:].strip() if rest.startswith("fn ") else rest
+                if " :: " in r2:
+                    cur.from_header, cur.from_fn = [x.strip() for x in r2.rsplit(" :: ", 1)]
+                else:
+                    cur.from_fn = r2.strip()
+            elif head == "frag":
+                n, _, a = rest.partition("=")
+                cur.frags[n.strip()] = a.strip()
+            elif head == "sig":
+                cur.sig = rest
+            elif head == "ret":
+                cur.ret = rest
+            elif head == "body":
+                cur.body = rest
+            elif head == "attr":
+                cur.attrs.append(rest)
+            elif head == "nocanary":
+                cur.no_canary = True
+            elif head in ("requires", "ensures"):
+                m = _label_re.match(rest)
+                if not m:
+                    raise SpecError(f"{path}:{ln}: {head} needs a [label]")
+                lab = m.group(1)
+                if "." not in lab or not lab.startswith("C"):
+                    lab = f"{u.prop}.{lab}"
+                getattr(cur, head).append(Clause(lab, m.group(2).strip()))
+            else:
+                raise SpecError(f"{path}:{ln}: unknown wrap entry {head}")
+            continue
         if head == "inherent":
             cur.inherent = True
         elif head == "rename":
@@ -182,6 +241,8 @@ def parse(path: str) -> UnitSpec:
             getattr(cur, head).append(Clause(lab, m.group(2).strip()))
         elif head == "entry":
             cur.entry.append(rest)
+        elif head == "tail":
+            cur.tail.append(rest)
         elif head == "loop":
             m = re.match(r"^(\d+)\s+(ghost|invariant|decreases|body_start|body_end|after)\s+(.*)$", rest, re.S)
             if not m:
